@@ -115,6 +115,10 @@ structure Cfg where
   /-- wire lengths and counts are checked against `decoder.remain` (and negative sizes rejected) before
   anything is allocated -/
   bounded : Bool
+  /-- arrays, strings and byte sequences are allocated as their data ARRIVES (`decodeElems`: at most 1024 elements ahead,
+  `read`: at most 64 KiB ahead of the bytes received) instead of the whole announced length upfront.  `remain` is only what
+  the frame size prefix announces; `inp` is what the connection really delivers -/
+  growing : Bool := true
   /-- how a `protocol.RecordSet` field is read: `none` = the value-level view used by C04 (size prefix, then the
   payload as an opaque blob); `some h` = a detailed reader of the record-set inside (Model/RecordScan.lean,
   used by C20) -/
@@ -137,6 +141,7 @@ def readUvarint (d : Dec) : Res Nat :=
 def readLen (cfg : Cfg) (n : Int) (d : Dec) : Res Bytes :=
   if n < 0 then (if cfg.bounded then .error else .panic)
   else if n.toNat > d.remain then (if cfg.bounded then .error else .balloon)
+  else if !cfg.growing && n.toNat > d.inp.length + 65536 then .balloon   -- `make([]byte, n)` far beyond what will ever arrive
   else if n.toNat ≤ d.inp.length then .ok (d.inp.take n.toNat) ⟨d.inp.drop n.toNat, d.remain - n.toNat⟩
   else .error
 
@@ -149,6 +154,7 @@ def lenOfU (cfg : Cfg) (u : Nat) : Int :=
 def allocElems (cfg : Cfg) (n : Int) (d : Dec) : Res Nat :=
   if n < 0 then (if cfg.bounded then .error else .panic)
   else if n.toNat > d.remain then (if cfg.bounded then .error else .balloon)
+  else if !cfg.growing && n.toNat > d.inp.length + 1024 then .balloon   -- `makeArray(n)` for elements that will never arrive
   else .ok n.toNat d
 
 /-- `for i := 0; i < n && d.remain > 0; i++ { decodeElem(d, a.index(i)) }`; slots not reached keep `z` -/
